@@ -59,6 +59,12 @@ def repo_hash():
                     h.update(open(p, 'rb').read())
                 except OSError:
                     pass
+    cm = os.path.join(REPO, 'cmake')
+    for f in ['CMakeLists.txt'] + ([os.path.join('cmake', x) for x in sorted(os.listdir(cm))] if os.path.isdir(cm) else []):
+        try:
+            h.update(f.encode()); h.update(open(os.path.join(REPO, f), 'rb').read())
+        except OSError:
+            pass
     for f in sorted(os.listdir(EXTRACT)):
         if f.endswith('.py'):
             h.update(open(os.path.join(EXTRACT, f), 'rb').read())
